@@ -74,12 +74,12 @@ CHECKS.update({
                 ref='DESIGN.md §2 C10', tech=TECH_SAT),
     'C16': dict(text='Real SemanticAnalyser::analyse on hand-built programs, each rule instance in each enumerated position with its violation-free twin: use before declaration (initialiser, assignment, echo, condition), '
                      'writes to a final local (AssignmentStatement, PostfixExpression, AssignmentExpression), primitive initialiser compatibility (7x7 types, int->long widening only), reference-type compatibility in initialisers and assignments (int/Foo/Sub <- int literal, new Foo/Bar/Sub, null; Sub extends Foo, Bar unrelated).',
-                note='four rule kernels of the long list; visibility, void results, static/abstract instantiation, this/super in static context, annotations, final fields, arrays/generics, argument and return positions are outside; node positions symbolic, programs enumerated. Found and fixed: class-typed values were never type-checked in initialisers/assignments (2ed8395).',
+                note='four rule kernels of the long list; visibility, void results, static/abstract instantiation, this/super in static context, annotations, final fields, arrays/generics, argument and return positions are outside; node positions symbolic, programs enumerated. Found and fixed: class-typed values were never type-checked in initialisers/assignments (e143a19).',
                 ref='DESIGN.md §2 C16', tech=TECH_SAT),
 })
 CHECKS.update({
     'C08': dict(text='Real buildClassTable + eval(member CallExpression) + findMethod + callMethod on one hand-built hierarchy (A <- B <- C, two overloads of m, super.m()): for every (static class, dynamic class, call) combination the body that runs is the most-derived override of the dynamic class for the overload matching the argument (exact match over widening at any level), super.m() runs the base version on the same receiver, also from inside a virtually dispatched override; real runConstructorChain: base initialisers, base body, own initialisers, own body (argument symbolic).',
-                note='two kernels of the object model only: analyser-side overload resolution, reference-typed overload parameters, static fields, generics, destructors/destroy order and printed output of whole programs are NOT encoded; the hierarchy is fixed, objects are built directly. Found and fixed: super.m() lost the receiver (7fa3323); an override reached by virtual dispatch ran in the static class\'s context (2eb8b07). The class-table defects found with the same harness are recorded under C10 and C12.',
+                note='two kernels of the object model only: analyser-side overload resolution, reference-typed overload parameters, static fields, generics, destructors/destroy order and printed output of whole programs are NOT encoded; the hierarchy is fixed, objects are built directly. Found and fixed: super.m() lost the receiver (7fa3323); an override reached by virtual dispatch ran in the static class\'s context (ff0e2e4). The class-table defects found with the same harness are recorded under C10 and C12.',
                 ref='DESIGN.md §2 C08', tech=TECH_SAT),
 })
 NA = {
